@@ -656,6 +656,28 @@ func runC04(c *Ctx) {
 		c.Sites["C04-R9#rand-bounds"] = nRand
 	}
 
+	c.rule("C04-R14", "REC: a program can build a value that contains itself (`$ node.parent = node`, `a[0] = a`), and a Go stack overflow is not recoverable: the recursive copier of the async snapshot (the function Environment.Snapshot copies bindings through) enters every container in its memo before it visits the container's elements, and hands a container back uncopied only when it is nil (clauses of C09-R2, evaluated here for the no-crash property)")
+	if snap := c.fn(interpPkg, "Environment.Snapshot"); snap != nil {
+		n := 0
+		seen := map[*ssa.Function]bool{}
+		eachInstr(snap, func(_ *ssa.BasicBlock, _ int, ins ssa.Instruction) {
+			mu, ok := ins.(*ssa.MapUpdate)
+			if !ok {
+				return
+			}
+			derivesFrom(mu.Value, func(v ssa.Value) bool {
+				if cl, ok := v.(*ssa.Call); ok && isCopier(staticFn(cl)) && !seen[staticFn(cl)] {
+					seen[staticFn(cl)] = true
+					n++
+					checkCopier(c, "C04-R14", staticFn(cl))
+				}
+				return false
+			})
+		})
+		c.Sites["C04-R14#copiers"] = n
+		c.ob("C04-R14", interpPkg+".Environment.Snapshot#copier-examined", snap.Pos(), n > 0, "the async snapshot does not copy bindings through a recursive copier any more: nothing to hold to the memo clause (see C09-R2)")
+	}
+
 	// ---------- L2 generic error bodies ----------
 	c.rule("C04-R13", "TNT: an error that can come from evaluating program code (Interpreter.EvaluateExpression, executeStatements, and every function of pkg/interpreter whose returned error can derive from theirs: ApplyTypeDefaults for a default expression, a query-default helper) is a fault of the program, not of the caller: in pkg/interpreter no Response literal with a 4xx StatusCode carries text derived from such an error (4xx with the error text is reserved for what the request got wrong - its query string, its body)")
 	{
